@@ -103,8 +103,10 @@ def render_select(q):
     cols = []
     for item in q["select"]:
         cols.append(item)
-    txt = "SELECT %s FROM %s WHERE { %s }" % (", ".join(cols), ", ".join(GNAMES[:q["ngraphs"]]),
-                                                 render_where(q["clauses"], alt))
+    where = render_where(q["clauses"], alt)
+    for f in q.get("filters") or []:
+        where += " . FILTER %s(%s)" % (f["op"], f["b"])
+    txt = "SELECT %s FROM %s WHERE { %s }" % (", ".join(cols), ", ".join(GNAMES[:q["ngraphs"]]), where)
     if q.get("group"):
         txt += " GROUP BY " + ", ".join(q["group"])
     if q.get("order"):
